@@ -338,17 +338,23 @@ impl Display for Format<'_, Formula> {
             } => {
                 // A comparison that begins with a variable must be parenthesized:
                 // `forall X Y = 3` would be read back as a quantification over X and Y.
-                let inner = Format(formula.as_ref()).to_string();
+                // The body is rendered exactly once (rendering it again through
+                // `fmt_unary` would make printing exponential in the nesting depth).
+                let body = Format(formula.as_ref());
+                let inner = body.to_string();
                 let mut chars = inner.chars();
                 let begins_with_variable = match (chars.next(), chars.next()) {
                     (Some(c), _) if c.is_ascii_uppercase() => true,
                     (Some('_'), Some(c)) if c.is_ascii_uppercase() => true,
                     _ => false,
                 };
-                if begins_with_variable {
+                if begins_with_variable
+                    || body.mandatory_parentheses()
+                    || self.precedence() < body.precedence()
+                {
                     write!(f, "{} ({inner})", Format(quantification))
                 } else {
-                    self.fmt_unary(Format(formula.as_ref()), f)
+                    write!(f, "{} {inner}", Format(quantification))
                 }
             }
             Formula::BinaryFormula { lhs, rhs, .. } => {
